@@ -26,6 +26,7 @@ type Config struct {
 	MaxPermute     int
 	MaxBigBytes    int
 	Thorough       bool
+	ExactNonlinear bool
 	NoBigMulSplit  bool
 	Workers        int
 	SolverTimeoutMs int
@@ -34,6 +35,7 @@ type Config struct {
 	Concrete       map[string]string // concolic mode: nondet name -> value
 	LogDir         string
 	StopAtFirstViolation bool
+	ProfileForks   bool
 	Witnesses      int // collect up to this many per-path witness inputs (translator validation)
 	IsKnown func(v Violation) bool
 }
@@ -97,6 +99,7 @@ type PathResult struct {
 	Sat, Unsat, Unknown int
 	SolverSecs float64
 	Witness   *Witness
+	ForkSites map[string]int
 }
 
 // Witness is a concrete input (solver model) that drives execution down one explored path,
@@ -138,6 +141,10 @@ type Path struct {
 	mutexes map[*Obj]int
 	assumes []string
 	ndNames map[string]int
+	divCache map[string]*Term
+	ndiv    int
+	protoBlobs map[*Obj]protoBlob
+	nblob   int
 	obsTerms []obsTerm
 	knownTrue map[string]bool
 	inInit  bool
@@ -231,6 +238,12 @@ func (p *Path) forkBool(c *Term, fr *frame, pos token.Pos) bool {
 	switch {
 	case tOK && fOK:
 		p.res.Forks++
+		if p.E.Cfg.ProfileForks {
+			if p.res.ForkSites == nil {
+				p.res.ForkSites = map[string]int{}
+			}
+			p.res.ForkSites[p.where(fr, pos)+" in "+frName(fr)]++
+		}
 		alt := make([]int, di+1)
 		copy(alt, p.decisions)
 		alt[di] = 0
@@ -252,6 +265,13 @@ func (p *Path) forkBool(c *Term, fr *frame, pos token.Pos) bool {
 }
 
 // choose picks one of n alternatives (all feasible by construction), forking.
+func frName(fr *frame) string {
+	if fr == nil {
+		return "?"
+	}
+	return fr.fn.Name()
+}
+
 func (p *Path) choose(n int, what string) int {
 	if n <= 1 {
 		return 0
@@ -277,6 +297,12 @@ func (p *Path) choose(n int, what string) int {
 		p.pending = append(p.pending, alt)
 	}
 	p.res.Forks += n - 1
+	if p.E.Cfg.ProfileForks {
+		if p.res.ForkSites == nil {
+			p.res.ForkSites = map[string]int{}
+		}
+		p.res.ForkSites["choice:"+what] += n - 1
+	}
 	p.decisions = append(p.decisions, 0)
 	return 0
 }
@@ -432,6 +458,7 @@ func NewEngine(P *Program, cfg Config, sets []string) (*Engine, error) {
 	tn := types.NewTypeName(token.NoPos, nil, "verifOpaqueError", nil)
 	e.opaqueErrT = types.NewNamed(tn, types.NewStruct(nil, nil), nil)
 	registerIntrinsics(e)
+	registerProto(e)
 	if len(P.BadDirectives) > 0 {
 		return nil, fmt.Errorf("HARNESS-ERROR malformed directive: %v", P.BadDirectives)
 	}
@@ -575,7 +602,7 @@ func (e *Engine) newPath(s *Solver, prefix []int) *Path {
 	p := &Path{E: e, S: s, prefix: prefix, names: map[string]int{}, funcs: map[string]bool{}, stubs: map[string]bool{},
 		notes: map[string]bool{}, covers: map[string]bool{}, obs: map[string]string{}, views: map[string]*Obj{}, viewOf: map[*Obj]PtrV{},
 		inOverride: map[*ssa.Function]bool{}, choices: map[string]int{}, ufs: map[string][]ufApp{}, declared: map[string]bool{},
-		mutexes: map[*Obj]int{}, ndNames: map[string]int{}, knownTrue: map[string]bool{}, locks: map[string]int{}, flags: map[string]bool{},
+		mutexes: map[*Obj]int{}, ndNames: map[string]int{}, divCache: map[string]*Term{}, protoBlobs: map[*Obj]protoBlob{}, knownTrue: map[string]bool{}, locks: map[string]int{}, flags: map[string]bool{},
 		syncMaps: map[string]*MapV{}, atomVals: map[string]Value{}}
 	p.tb = &TB{}
 	if s != nil {
@@ -715,6 +742,7 @@ type ObligationResult struct {
 	Forks     int
 	InconclusiveReasons map[string]int
 	Witnesses []*Witness
+	ForkSites map[string]int
 	Truncated bool
 	SamplePaths []string
 }
@@ -823,6 +851,12 @@ func (e *Engine) Explore(id string, h *ssa.Function) *ObligationResult {
 				}
 				for _, a := range res.Assumes {
 					R.Assumes[a] = true
+				}
+				for k, v := range res.ForkSites {
+					if R.ForkSites == nil {
+						R.ForkSites = map[string]int{}
+					}
+					R.ForkSites[k] += v
 				}
 				R.Violations = append(R.Violations, res.Violations...)
 				if res.Witness != nil {
